@@ -179,6 +179,7 @@ def native_task(task):
             res['failed'].append(n)
             res['details'][n] = {k: str(v)[:300] for k, v in info.items()}
     res['observed'] = {k: str(v)[:300] for k, v in w.samples.items()}
+    res['n_clauses'] = len(w.obligations)
     return res
 
 
@@ -243,7 +244,19 @@ def run_property(prop, tier='quick', jobs=None, seed=0, only=None, write_baselin
     shim_info = next((r['shim'] for r in results if r.get('shim')), [])
     crashes = [r for r in results if r['error']]
     # ---- native phase: replay counterexamples and cross-check path models
+    # ---- mode B (bounded run-time contracts on the real code, natively): one native job per configuration
+    b_results = []
+    for gname, g in groups.items():
+        if g.mode != 'B':
+            continue
+        cfgs = list(g.configs(tier))
+        if not cfgs:
+            print(f'ENGINE-ERROR: group {gname} has no configurations'); return EXIT_CRASH
+        for cfg in cfgs:
+            b_results.append({'group': gname, 'cfg': cfg, 'mode': 'B'})
     native_jobs = []
+    for bi, b in enumerate(b_results):
+        native_jobs.append(('bounded', bi, 0, (b['group'], b['cfg'], b['cfg'].get('values', {}), b['cfg'].get('tables', {}), [])))
     for ri, r in enumerate(results):
         for fi, f in enumerate(r['failures']):
             native_jobs.append(('replay', ri, fi, (r['group'], r['cfg'], f['values'], f['tables'], [f['clause']])))
@@ -259,7 +272,21 @@ def run_property(prop, tier='quick', jobs=None, seed=0, only=None, write_baselin
     undecided = []
     cross_checked = 0
     cross_skipped = 0
+    bounded_evals = 0
+    bounded_clauses = 0
     for (kind, ri, idx, job), res in zip(native_jobs, native_out):
+        if kind == 'bounded':
+            b = b_results[ri]
+            b['res'] = res
+            if res['skipped']:
+                continue
+            bounded_evals += 1
+            bounded_clauses += res.get('n_clauses', 0)
+            for n in res['failed']:
+                violations.append({'group': b['group'], 'cfg': b['cfg'], 'clause': n, 'how': 'bounded-runtime-contract',
+                                   'values': job[2], 'tables': job[3], 'native': res, 'replayed': True,
+                                   'info': res['details'].get(n, {})})
+            continue
         r = results[ri]
         gname, cfgname = r['group'], r['cfg']['name']
         if kind == 'replay':
@@ -389,7 +416,7 @@ def run_property(prop, tier='quick', jobs=None, seed=0, only=None, write_baselin
     functions = []
     for g in groups.values():
         for f in g.functions:
-            e = {'name': f, 'mode': g.mode + ('/loop-free' if g.loop_free else ''), 'group': g.name}
+            e = {'name': f, 'mode': ('bounded (not counted as proved)' if g.mode == 'B' else g.mode) + ('/loop-free' if g.loop_free else ''), 'group': g.name}
             functions.append(e)
     assumptions = sorted({a for g in groups.values() for a in g.assumptions} | {'A-real', 'A-cpython'})
     cov = {
@@ -400,6 +427,9 @@ def run_property(prop, tier='quick', jobs=None, seed=0, only=None, write_baselin
         'paths_cross_checked': cross_checked, 'cross_checks_skipped_rounding': cross_skipped,
         'canaries': canary_total, 'canaries_refuted': canary_refuted,
         'known_finding_obligations': len(known_obs),
+        'bounded': [{'group': gname, 'functions': g.functions, 'inputs': sum(1 for b in b_results if b['group'] == gname),
+                     'rule': g.notes} for gname, g in groups.items() if g.mode == 'B'],
+        'bounded_evaluations': bounded_evals, 'bounded_clause_evaluations': bounded_clauses,
         'known_findings_reproduced': sorted(known_hits),
         'undecided': len(undecided),
         'functions_under_contract': functions,
@@ -427,7 +457,7 @@ def run_property(prop, tier='quick', jobs=None, seed=0, only=None, write_baselin
     lvl = _level_override(prop)
     if lvl: ev['level'] = lvl
     json.dump(ev, open(os.path.join(VERIF, 'evidence', f'{prop}.json'), 'w'), indent=1, default=str)
-    print(f"{prop} [{tier}] groups={len(groups)} configs={len(results)} paths={cov['paths']} obligations={cov['obligations']} discharged={cov['discharged']} "
+    print(f"{prop} [{tier}] groups={len(groups)} configs={len(results)} bounded={bounded_evals} paths={cov['paths']} obligations={cov['obligations']} discharged={cov['discharged']} "
           f"vcs={cov['vcs_discharged']} cross-checked={cross_checked} canaries={canary_refuted}/{canary_total} "
           f"known={len(known_hits)} violations={ev['violations']} undecided={len(undecided)} wall={ev['wall_s']}s exit={status}")
     return status
